@@ -35,6 +35,7 @@ PREV = ["none", "none", "same", "other", "edit", "slack", "wrong", "subset", "su
 
 def generate(seed, tier="quick"):
     rng = sub(seed, "program")
+    hash_length = None
     want_plugin = sub(seed, "driver").random() < 0.25
     hrng = sub(seed, "hashseed")
     # every real pytest process draws its own hash seed: a share of the histories runs the later sessions in an interpreter that was
@@ -62,6 +63,7 @@ def generate(seed, tier="quick"):
         if need_import:
             f["header"]["imports"] = "explicit"
             f["header"].setdefault("pre", []).insert(0, "from inline_snapshot import external")
+        hash_length = erng.choice([None, None, 64, 8])
     mrng = sub(seed, "mutation")
     if mrng.random() < 0.3:
         # the compared object keeps changing after the comparison: what the first run writes must be what was compared, else the second run changes it again
@@ -84,7 +86,7 @@ def generate(seed, tier="quick"):
     driver = "plugin" if sub(seed, "driver").random() < 0.25 else "inline"
     W.sprinkle_uni(prog, sub(seed, "uni"), 0.12)
     return {"program": prog, "approved": approved, "driver": driver, "fmt": draw_fmt(sub(seed, "fmt")), "repeats": 3 if frng.random() < 0.2 else 2,
-            "hashseed2": hashseed2}
+            "hashseed2": hashseed2, "hash_length": hash_length}
 
 
 def _is_complex_arith(n):
@@ -167,7 +169,8 @@ def execute(case, ctx):
     out = {"violations": [], "discards": {}, "abstract": []}
     files, orders = P.render(prog, drivers.simlib_text())
     if driver == "plugin":
-        files["pyproject.toml"] = sim.pyproject_for(fmt)
+        # (hash-length 64: references to outsourced data carry the whole hash, without the "*" that also matches the "-new" infix)
+        files["pyproject.toml"] = sim.pyproject_for(fmt, tool={"hash-length": case["hash_length"]} if case.get("hash_length") else None)
     flags = ",".join((["report"] if driver == "plugin" else []) + sorted(approved)) or None
     spec = {"flags": flags, "fmt": fmt}
     if driver == "plugin" and case.get("bytecode", True):
@@ -222,6 +225,13 @@ def execute(case, ctx):
                     out["violations"].append({"clause": "second-run-passes", "sig": "test-raises-in-second-run",
                                               "detail": f"second run raised: {str(res.get('raises'))[:300]}"})
             else:
+                import re as _re
+
+                mrem = _re.search(r"removed \d+ unused externals", res.get("out", ""))
+                if mrem:
+                    # a second run is a no-op: it has nothing to delete either (the durable state may look the same because the run re-created what it deletes)
+                    out["violations"].append({"clause": "nothing-pending", "sig": "second-run-removes-externals",
+                                              "detail": f"the repeated session reports '{mrem.group(0)}' (hash-length={case.get('hash_length')})\n{res.get('out', '')[-1200:]}"})
                 shown = drivers.report_categories(res.get("out", ""))
                 if shown:
                     out["violations"].append({"clause": "nothing-pending", "sig": "second-run-shows-diff:" + "+".join(shown),
